@@ -7,6 +7,7 @@ import KmipModel.Props.C03
 import KmipModel.Props.C03Engine
 import KmipModel.Props.C04
 import KmipModel.Props.C05
+import KmipModel.Props.C06
 import KmipModel.Props.C07
 import KmipModel.Props.C08
 import KmipModel.Props.C11
